@@ -195,6 +195,20 @@ let reader_op (ctx : rtuple list) (unique : bool) (ov : value) =
 
 let impl_s = function 0 -> "allowed" | 1 | 2 -> "denied" | 3 -> "condition-error" | 4 -> "depth-error" | 5 -> "error"
                      | 6 -> "timeout" | 9 -> "list/tree" | _ -> "?"
+(* finding weighted_degenerate_rewrite (C05), wrong-answer variant: a rewrite with an intersection or
+   exclusion in which `this` (or one tuple-to-userset) occurs twice, e.g. (this but not this) or this *)
+let rec has_setop = function Inter _ | Diff (_, _) -> true | Union l -> List.exists has_setop l | _ -> false
+let rec leaves = function
+  | Union l | Inter l -> List.concat_map leaves l
+  | Diff (b, s) -> leaves b @ leaves s
+  | x -> [x]
+let degenerate_rw rw =
+  let ls = List.filter (function This | TTU (_, _) -> true | _ -> false) (leaves rw) in
+  let rec dup = function [] -> false | x :: l -> List.mem x l || dup l in
+  has_setop rw && dup ls
+let degenerate_reachable (m : model) (t : tid) (r : rid) =
+  List.exists (fun (t', r') -> match get_relation m t' r' with Some rd -> degenerate_rw rd.rd_rw | None -> false)
+    ((t, r) :: closure m (nrels m) [(t, r)])
 let api_name = function 0 -> "Check" | 1 -> "BatchCheck" | 2 -> "ListObjects" | 3 -> "ListUsers" | _ -> "Expand"
 let eng_name = function 0 -> "default" | 1 -> "optimised" | _ -> "weighted-graph/pipeline"
 let kind_name = function 0 -> "also without caches" | 1 -> "only with warm caches" | _ -> "unstable"
@@ -235,7 +249,7 @@ let f id vs =
          direct conflict, and the V1 trigger bits of the first implicated atom *)
       (let per = List.concat_map (fun mv ->
            match as_list mv with
-           | [_; api; eng; _; _; _; _; atomsv] ->
+           | [_; api; eng; _; _; _; _; atomsv; _] ->
              let atoms = List.map (fun av ->
                  match as_list av with
                  | [s; px; ot; oi; r] -> (dec_subject s, List.map dec_pair (as_list px), mk_obj (as_int ot) (as_int oi), n_of_int (as_int r))
@@ -252,7 +266,7 @@ let f id vs =
                      :: b2i (stratified m) :: per));
       List.iter (fun mv ->
           match as_list mv with
-          | [_mi; api; eng; kind; got; want; ctxidx; atomsv] ->
+          | [_mi; api; eng; kind; got; want; ctxidx; atomsv; luv] ->
             let api = as_int api and eng = as_int eng and kind = as_int kind in
             let got = as_int got and want = as_int want in
             let ctxt = List.map (fun i -> List.nth store (as_int i)) (as_list ctxidx) in
@@ -271,6 +285,10 @@ let f id vs =
             let conflict =
               eng <> 2 && (api = 0 || api = 1 || api = 2) &&
               List.exists (fun (s, _, _, _) -> wild_direct_conflict m cs store s) atoms in
+            (* optimised ListObjects on a degenerate rewrite: its own traversal drops objects that the
+               sub-results cached by Check put back *)
+            let lo_degenerate = api = 2 && eng = 1 &&
+                                List.exists (fun (_, _, o, r) -> degenerate_reachable m o.otype r) atoms in
             let v2cache = eng = 2 && kind = 1 && (api = 0 || api = 1) && Lazy.force recursive in
             let v1trig =
               if eng = 2 || api = 4 then None
@@ -287,12 +305,40 @@ let f id vs =
                (api >= 2 && api <> 4 && (got = 3 || want = 3))) && Lazy.force has_e in
             (* weighted-graph engine: with an unevaluable condition in play even allowed / error flips *)
             let wg_race = eng = 2 && (got = 3 || want = 3) && Lazy.force has_e in
+            (* ListUsers: both answers are outcomes of the ListUsers algorithm model (Query/ListUsers.v: the
+               engine may give either on this very data, whatever the split) and the model raised the
+               trigger of a listed ListUsers finding (checks/C06.findings.json) *)
+            let lu_flag =
+              if api <> 3 then None
+              else match as_list luv with
+                | [ft; fr; edges; ot; oi; r; gotv; wantv] ->
+                  let ans v = match as_list v with I "0" :: us -> Some (List.map dec_subject us) | _ -> None in
+                  (match ans gotv, ans wantv with
+                   | Some g, Some w ->
+                     let lf = list_users m cs store (n_of_int (as_int ft)) (n_of_int (as_int fr)) (nat_of_int 25)
+                         (as_int edges = 0) (mk_obj (as_int ot) (as_int oi)) (n_of_int (as_int r)) in
+                     let same_set a b = List.for_all (fun x -> List.mem x b) a && List.for_all (fun x -> List.mem x a) b in
+                     let inm x = List.exists (same_set x) lf.lf_results in
+                     if lf.lf_errs = [] && inm g && inm w then begin
+                       let tg = lf.lf_trig in
+                       if tg.tg_excl_cycle then Some "lu_excl_sub_cycle"
+                       else if tg.tg_excl then Some "lu_excl_den_fail"
+                       else if tg.tg_union then Some "lu_union_den_fail"
+                       else if tg.tg_inter then Some "lu_inter_den_fail"
+                       else if tg.tg_merge then Some "lu_merge_den_fail"
+                       else if tg.tg_race then Some "lu_status_race"
+                       else None
+                     end else None
+                   | _ -> None)
+                | _ -> None in
             if lenient then knowns := ("ctx_lenient_condition " ^ where) :: !knowns
             else if wildcard_lo then knowns := ("lo_wildcard_empty_user_filter " ^ where) :: !knowns
             else if conflict then knowns := ("sorted_dedup_by_object " ^ where) :: !knowns
+            else if lo_degenerate then knowns := ("lo_degenerate_rewrite " ^ where) :: !knowns
             else if v2cache then knowns := ("wg_cache_visited " ^ where) :: !knowns
             else if cond_flip then knowns := ("cond_err_order_dependent " ^ where) :: !knowns
             else if wg_race then knowns := ("wg_cond_err_race " ^ where) :: !knowns
+            else if lu_flag <> None then knowns := ((match lu_flag with Some f -> f | None -> "") ^ " " ^ where) :: !knowns
             else (match v1trig with
                 | Some fl -> knowns := (fl ^ " " ^ where) :: !knowns
                 | None -> props := where :: !props)
@@ -300,7 +346,7 @@ let f id vs =
       (* one verdict per scenario: the rarer findings first *)
       let prio k =
         let rec idx i = function [] -> i | p :: l -> if String.length k >= String.length p && String.sub k 0 (String.length p) = p then i else idx (i + 1) l in
-        idx 0 ["sorted_dedup_by_object"; "wg_cache_visited"; "excl_sub_cycle"; "cond_err_swallowed";
+        idx 0 ["lo_degenerate_rewrite"; "lu_status_race"; "sorted_dedup_by_object"; "wg_cache_visited"; "excl_sub_cycle"; "cond_err_swallowed";
                "wg_cond_err_race"; "cond_err_order_dependent"; "ctx_lenient_condition"; "lo_wildcard_empty_user_filter"] in
       (match List.rev !props, List.sort (fun a b -> compare (prio a) (prio b)) (List.rev !knowns) with
        | p :: _, _ -> "PROP " ^ p
